@@ -239,8 +239,8 @@ def _one_d(res, rng, viol, groups):
             nu.breaks[-1] += Fr(rng.randrange(1, 5), 2)
         if nu.moment_q(axis[0], (axis[o - 1] + axis[o]) / 2, 0) + nu.moment_q((axis[o] + axis[o + 1]) / 2, axis[-1], 0) == 0:
             continue
-        rep = rng.choice(["ZERO", "CENTER", "ONEONE", "TILDE"])
         fv = rng.random() < 0.5
+        rep = rng.choice(["ZERO", "CENTER", "ONEONE", "TILDE"] if fv else ["CENTER", "ONEONE", "TILDE"])   # ZERO requires finite variation (ValueError otherwise)
         nu.finite_variation = fv
         a, sigma = Fr(rng.randrange(-8, 9), 8), Fr(rng.randrange(0, 5), 4)
         spec = step_spec(nu, a=a, sigma=sigma, representation=rep)
